@@ -36,8 +36,11 @@ def run(tier, chk):
     open(cfgp, "w").write(f'SPECIFICATION Spec\nCONSTANT Tier = "{tier}"\nINVARIANT Emit\nCHECK_DEADLOCK FALSE\n')
     n = common.run_vectors(chk, wd, "C11_Gen", gen_cfg=cfgp, workers=6, sig_of=sig, trace_module="C11_Trace", rec_sig_of=rec_sig)
     nr = common.run_random(chk, wd, "C11", "C11_Trace", 800 if tier == "quick" else 20000, shards=1 if tier == "quick" else 6, sig_of=rec_sig)
+    # connection level: the same kinds of invalid sections as request head, response head and trailers, both roles
+    cs = common.gen_scenarios(chk, wd, "C11C_Gen", workers=2, label="cgen")
+    common.run_sim(chk, wd, cs, "C11C_Trace", label="csim", shards=4, sig_of=lambda s, t, w: f"c11:conn-level:{s.get('role')}:{s.get('pos')}")
     chk.exhaustive = True
-    chk.distinct_nontrivial = n + nr
+    chk.distinct_nontrivial = n + nr + len(cs)
     chk.rule = ("decode: every byte string of 0..2 bytes after the prefix 00 00, 0..1 bytes after 10 odd prefixes, every first byte x 10 tails, all 99 static indices, index edges "
                 "(61..63, 97..100, over-long encodings), every truncation / bit mutation / trailing garbage of 7 valid encodings; encode: 48 name x value fields alone and in lists "
                 "with repetition, all 99 static entries; plus seeded random field lists (arbitrary bytes, lengths up to 300) and random byte strings")
